@@ -73,8 +73,8 @@ def plan(tier, seed):
 #
 # Working sets that grow, shrink and move need more features than the 3-5 of the shared alphabet: a fixed family of AR(1)-correlated
 # designs (n x p in {5x6, 8x12}, generator seeds 0..9, a fixed finite alphabet) x strengths x p0 in {1,2,3} x epochs {6,12}; every
-# budget column max_iter = 1..7 is a trajectory.  Oracles: descent along the column, never above the start, and the caller's model-fit
-# buffer equals X w on return (what a mis-kept extrapolation buffer breaks first).
+# budget column max_iter = 1..7 is a trajectory.  Oracles: descent along the column, never above the start (the model-fit buffer of
+# the same runs is C05's clause and is checked there, on the same family).
 
 def corr_design(seed, n, p, T):
     rng = np.random.RandomState(seed)
@@ -117,6 +117,39 @@ def acc_family_comps(task, tier):
                                    xid=f"corr{n}x{p}s{seed}", w_init=(np.zeros((p, T)) if T else np.zeros(p)).tolist())
 
 
+def ar_design(seed, n, p, rho):
+    """AR(1) design with correlation rho (0.95 / 0.99), 5-sparse truth; entries rounded to multiples of 1/64."""
+    rng = np.random.RandomState(seed)
+    Z = rng.randn(n, p)
+    X = np.empty((n, p))
+    X[:, 0] = Z[:, 0]
+    for j in range(1, p):
+        X[:, j] = rho * X[:, j - 1] + np.sqrt(1 - rho ** 2) * Z[:, j]
+    w = np.zeros(p)
+    k = min(5, p // 2)
+    w[rng.choice(p, k, replace=False)] = rng.randn(k)
+    y = X @ w + 0.3 * rng.randn(n)
+    return np.round(X * 64) / 64, np.round(y * 64) / 64
+
+
+def ar_family_comps(part, tier):
+    """AndersonCD at its DEFAULT tolerance and budgets on strongly correlated p > n designs (the inner solver then stops on epochs where
+    an extrapolation was just rejected, and working sets shrink): a fixed family, fully enumerated."""
+    seeds = range(20) if tier != "quick" else range(12)
+    for (n, p) in ((10, 30), (20, 40)):
+        for rho in (0.95, 0.99):
+            for seed in seeds:
+                if seed % 2 != part:
+                    continue
+                X, y = ar_design(seed, n, p, rho)
+                amax = float(np.max(np.abs(X.T @ y))) / n
+                for fr in (0.05, 0.01):
+                    for p0 in (3, 5, 10):
+                        yield dict(solver=dict(name="AndersonCD", kw=dict(p0=p0, fit_intercept=False)), datafit=dict(name="Quadratic"),
+                                   penalty=dict(name="L1", alpha=fr * amax, positive=False), X=X.tolist(), y=y.tolist(), storage="denseF",
+                                   xid=f"ar{n}x{p}r{rho}s{seed}", w_init=np.zeros(p).tolist())
+
+
 def exec_acc_column(comp, ks=(1, 2, 3, 4, 5, 6, 7)):
     from mc import comp as C
     out, objs = [], {}
@@ -131,10 +164,6 @@ def exec_acc_column(comp, ks=(1, 2, 3, 4, 5, 6, 7)):
         w = r["w"]
         f = C.objective(c, w)
         objs[k] = f
-        u = RC.linear_predictor(prob, w)
-        err = float(np.max(np.abs(u - r["Xw_buf"])))
-        if err > 1e-9 * (1 + float(np.max(np.abs(u)))):
-            out.append(("fit_buffer_inconsistent", k, err, "== X w"))
         if f > f0 + tolerance(f0):
             out.append(("above_start", k, f - f0, "<= 0"))
         if k - 1 in objs and f > objs[k - 1] + tolerance(objs[k - 1]):
